@@ -35,7 +35,30 @@ def table_funcs(T, actions_as="list"):
     }
 
 
+def touch_base(m, tabular):
+    """USE the base object so that its cached_property / method_cache entries get filled"""
+    m.reachable_states()
+    if not tabular:
+        return
+    from msdm.algorithms.valueiteration import ValueIteration
+    m.state_list, m.action_list
+    m.transition_matrix, m.reward_matrix, m.action_matrix, m.state_action_reward_matrix
+    m.absorbing_state_vec, m.initial_state_vec, m.reachable_state_vec, m.dead_end_state_vec
+    try:
+        ValueIteration(max_iterations=20).plan_on(m)
+    except BaseException as e:
+        if isinstance(e, (KeyboardInterrupt, SystemExit)):
+            raise
+
+
 def make_base(spec):
+    m = make_base_fresh(spec)
+    if spec.get("touch"):
+        touch_base(m, spec["tabular"])
+    return m
+
+
+def make_base_fresh(spec):
     from msdm.core.mdp import MarkovDecisionProcess, TabularMarkovDecisionProcess
     from msdm.core.mdp.quickmdp import QuickMDP, QuickTabularMDP
     F = table_funcs(spec["tables"], spec.get("actions_as", "list"))
@@ -156,6 +179,82 @@ def case_subtask(case):
             "is_terminal": [bool(opt.is_terminal(s)) for s in range(n)]}
 
 
+def views(o):
+    import numpy as np
+    return {
+        "tf": attempt(lambda: [[[fj(x) for x in r] for r in row] for row in o.transition_matrix.tolist()]),
+        "rf": attempt(lambda: [[[fj(x) for x in r] for r in row] for row in o.reward_matrix.tolist()]),
+        "am": attempt(lambda: [[bool(x) for x in row] for row in o.action_matrix.tolist()]),
+        "absvec": attempt(lambda: [bool(x) for x in o.absorbing_state_vec.tolist()]),
+        "s0": attempt(lambda: [fj(x) for x in o.initial_state_vec.tolist()]),
+        "reach": attempt(lambda: sorted(int(x) for x in o.reachable_states())),
+    }
+
+
+def fresh_equivalent(o, n, nA):
+    """a brand-new tabular MDP with the functional behaviour, lists and discount of o"""
+    from msdm.core.mdp import TabularMarkovDecisionProcess
+    from msdm.core.distributions import DictDistribution
+    init = DictDistribution(dict(o.initial_state_dist().items()))
+    acts = [list(o.actions(s)) for s in range(n)]
+    trans = {(s, a): DictDistribution(dict(o.next_state_dist(s, a).items())) for s in range(n) for a in range(nA)}
+    rew = {(s, a, ns): o.reward(s, a, ns) for s in range(n) for a in range(nA) for ns in range(n)}
+    absb = [bool(o.is_absorbing(s)) for s in range(n)]
+
+    class Ref(TabularMarkovDecisionProcess):
+        discount_rate = o.discount_rate
+        _state_list = tuple(o.state_list)
+        _action_list = tuple(o.action_list)
+        def initial_state_dist(self): return init
+        def actions(self, s): return acts[s]
+        def next_state_dist(self, s, a): return trans[(s, a)]
+        def reward(self, s, a, ns): return rew[(s, a, ns)]
+        def is_absorbing(self, s): return absb[s]
+    return Ref()
+
+
+def plan_summary(o):
+    from msdm.algorithms.valueiteration import ValueIteration
+    r = ValueIteration(max_iterations=30).plan_on(o)
+    sl, al = list(o.state_list), list(o.action_list)
+    return {"V": [fj(r.state_value[s]) for s in sl],
+            "pi": [[fj(r.policy[s][a]) for a in al] for s in sl],
+            "iterations": int(r.iterations)}
+
+
+def derived_report(d, n, nA):
+    out = dump(d, n, nA)
+    out["views"] = views(d)
+    out["plan"] = attempt(lambda: plan_summary(d))
+    out["plan_fresh_equivalent"] = attempt(lambda: plan_summary(fresh_equivalent(d, n, nA)))
+    return out
+
+
+def case_used(case):
+    """multi-step scenario: the base object is USED first, then derived MDPs are built from it"""
+    from msdm.core.semimdp.option import augment, PlanToSubgoalOption
+    base = make_base(case["base"])          # spec has touch = True
+    T = case["base"]["tables"]
+    n, nA = T["n"], T["nA"]
+    out = {"base": dump(base, n, nA), "base_views": views(base), "derived": []}
+    for d in case["derive"]:
+        try:
+            if d["how"] == "augment":
+                o = augment(base, **ov_funcs(case["alt"], d["keys"]))
+            else:
+                kw = {}
+                if d["maxr"] is not None:
+                    kw["max_nonterminal_pseudoreward"] = fl(d["maxr"])
+                o = PlanToSubgoalOption(mdp=base, initial_states=list(d["initial_states"]), subgoals=list(d["subgoals"]),
+                                        planner=None, include_mdp_absorbing_states=d["include"], **kw).sub_task
+            out["derived"].append(derived_report(o, n, nA))
+        except BaseException as e:
+            if isinstance(e, (KeyboardInterrupt, SystemExit)):
+                raise
+            out["derived"].append({"raised": type(e).__name__ + ": " + str(e)[:200]})
+    return out
+
+
 # ---------------------------------------------------------------------------
 def make_option(ospec, log):
     from msdm.core.semimdp.option import Option
@@ -274,7 +373,8 @@ def case_smdp(case):
 
 
 def one(case, pl):
-    return {"augment": case_augment, "subtask": case_subtask, "run": case_run, "smdp": case_smdp}[case["kind"]](case)
+    return {"augment": case_augment, "subtask": case_subtask, "run": case_run, "smdp": case_smdp,
+            "used": case_used}[case["kind"]](case)
 
 
 if __name__ == "__main__":
